@@ -335,6 +335,19 @@ func RunOne(s Scenario, prefix []int, preempt bool, recordSites bool) (res Resul
 		add("c18.close", "close-fails", "closing the cache after the run failed: %v", err)
 	}
 	closed = true
+	// what a restart serves: the cache loaded from the files the run left behind
+	var reloaded view
+	haveReloaded := false
+	if r4, err := repository.OpenGoGitRepo(dir+"/repo", world.Namespace, nil); err == nil {
+		if c4, err := cache.NewRepoCacheNoEvents(r4); err == nil {
+			reloaded = describe(c4, ids)
+			haveReloaded = true
+			_ = c4.Close()
+		} else {
+			_ = r4.Close()
+			add("c18.cache", "reopen-fails", "re-opening the cache after the run failed: %v", err)
+		}
+	}
 	r2, err := repository.OpenGoGitRepo(dir+"/repo", "verif-rebuild", nil)
 	if err != nil {
 		return res, err
@@ -351,6 +364,12 @@ func RunOne(s Scenario, prefix []int, preempt bool, recordSites bool) (res Resul
 	}
 	if live.query != rebuilt.query {
 		add("c18.cache", "query-differs-from-rebuild", "live cache query results %s, rebuilt %s", live.query, rebuilt.query)
+	}
+	if haveReloaded && reloaded.excerpts != rebuilt.excerpts {
+		add("c18.cache", "cache-files-differ-from-rebuild", "the cache re-opened from the files the run left behind serves:\n%s\nrebuilt:\n%s", reloaded.excerpts, rebuilt.excerpts)
+	}
+	if haveReloaded && reloaded.query != rebuilt.query {
+		add("c18.cache", "reopened-query-differs-from-rebuild", "re-opened cache query results %s, rebuilt %s", reloaded.query, rebuilt.query)
 	}
 	// ---- oracle: the persisted clocks dominate what is stored, and the repository can go on after a
 	// restart: a fresh handle (clocks loaded from their files) edits the shared bug and reads it back
@@ -453,6 +472,15 @@ func describe(c *cache.RepoCache, ids []entity.Id) view {
 	q, _ := query.Parse("status:open sort:id-asc")
 	r, err := c.Bugs().Query(q)
 	v.query = fmt.Sprintf("%v %v", r, err)
+	// full-text search for the words only one thread wrote: the search index must know them
+	for _, w := range []string{"uniqcommentt1", "uniqcommentt2", "uniqcommentt3", "uniqtitlet1", "uniqtitlet2", "uniqtitlet3", "shared"} {
+		sq, perr := query.Parse(w + " sort:id-asc")
+		if perr != nil {
+			continue
+		}
+		sr, serr := c.Bugs().Query(sq)
+		v.query += fmt.Sprintf(" | %s:%v %v", w, sr, serr)
+	}
 	return v
 }
 
@@ -511,7 +539,7 @@ func (e *env) do(name string, call Call) []Issued {
 	}
 	comment := func(id entity.Id) []Issued {
 		return edit(id, func(b *cache.BugCache) (entity.Id, error) {
-			_, op, err := b.AddComment("comment by " + name)
+			_, op, err := b.AddComment("comment by " + name + " uniqcomment" + strings.ToLower(name))
 			if op == nil {
 				return "", err
 			}
@@ -540,7 +568,7 @@ func (e *env) do(name string, call Call) []Issued {
 		return comment(e.other)
 	case CTitleShared:
 		return edit(e.shared, func(b *cache.BugCache) (entity.Id, error) {
-			op, err := b.SetTitle("title by " + name)
+			op, err := b.SetTitle("title by " + name + " uniqtitle" + strings.ToLower(name))
 			if op == nil {
 				return "", err
 			}
